@@ -16,6 +16,8 @@ try:
     for m in catalogue.M:
         if only and m["id"] not in only:
             continue
+        if not only and m["id"] in index and "suite_passes" in index[m["id"]]:
+            continue
         ok = True
         for f, old, new in [(m["file"], m["old"], m["new"])] + [tuple(e) for e in m["extra"]]:
             p = os.path.join(W, f)
@@ -34,13 +36,19 @@ try:
             else:
                 patch = subprocess.check_output(["git", "-C", W, "diff"], text=True)
                 open(os.path.join(HERE, "mutants", m["id"] + ".patch"), "w").write(patch)
-                t = subprocess.run([os.path.join(HERE, "tools", "baseline_off.sh"), W], env=ENV, capture_output=True, text=True)
-                rec["suite_passes"] = t.returncode == 0
-                rec["suite_summary"] = t.stdout.strip().splitlines()[0] if t.stdout.strip() else ""
+                try:
+                    t = subprocess.run(["timeout", "-k", "5", "240", os.path.join(HERE, "tools", "baseline_off.sh"), W], env=ENV, capture_output=True, text=True)
+                    rec["suite_passes"] = t.returncode == 0
+                    rec["suite_summary"] = t.stdout.strip().splitlines()[0] if t.stdout.strip() else ("timeout (suite hangs)" if t.returncode == 124 else "")
+                except Exception as ex:
+                    rec["suite_passes"] = False
+                    rec["suite_summary"] = str(ex)
+                subprocess.call(["pkill", "-f", "analysis.test"])
                 print("%s builds, suite_passes=%s" % (m["id"], rec["suite_passes"]))
         else:
             rec["builds"] = False
         index[m["id"]] = dict(index.get(m["id"], {}), **rec)
+        json.dump(index, open(idx_path, "w"), indent=1, sort_keys=True)
         subprocess.check_call(["git", "-C", W, "checkout", "-q", "--", "."])
 finally:
     subprocess.call(["git", "-C", "/repo", "worktree", "remove", "--force", W])
